@@ -294,15 +294,15 @@ class CoopThread:
 
 
 class coop_threads:
-    """context manager: threading.Thread and threading.Lock are cooperative inside"""
+    """context manager: threads created inside are workers of the active DynScheduler. (Locks are NOT patched
+    here: the scheduler's own semaphores are built on threading.Lock; create the object under test inside
+    `coop_locks()` and run it inside `coop_threads()`.)"""
 
     def __enter__(self):
-        threading.Lock = CoopLock
         threading.Thread = CoopThread
         return self
 
     def __exit__(self, *a):
-        threading.Lock = _RealLock
         threading.Thread = _RealThread
 
 
